@@ -42,7 +42,7 @@ VIOLATION_MSGS = [
     'possible arithmetic underflow/overflow', 'possible division by zero', 'possible bit shift underflow/overflow',
     'unable to prove assertion safety condition', 'recursive call', 'could not prove termination',
     'loop ensures not satisfied', 'possible truncation', 'failed this', 'not satisfied',
-    'unable to prove post-condition', 'unable to prove pre-condition', 'post-condition of closure',
+    'unable to prove post-condition', 'unable to prove pre-condition', 'post-condition of closure', 'precondition not met',
 ]
 RESOURCE_MSGS = ['Resource limit', 'rlimit', 'timed out', 'timeout']
 
@@ -408,13 +408,13 @@ def cps_closure_try(body):
 
 def desugar_option_or_else(text):
     """R.or_else(|| B) -> (match R { Some(v_) => Some(v_), None => B });  R.unwrap_or_else(|| B) -> (match R { Some(v_) => v_,
-    None => B })  — the definitions of Option::or_else / Option::unwrap_or_else; only for parameterless closures that
-    mention `self`."""
+    None => B });  C.then(|| B) -> (if C { Some(B) } else { None })  — the definitions of Option::or_else /
+    Option::unwrap_or_else / bool::then; only for parameterless closures that mention `self`."""
     from rsrc import find_closures, match_close
     n, start = 0, 0
     while True:
         m = mask(text)
-        mm = re.search(r'\.(or_else|unwrap_or_else)\(\s*\|\|', m[start:])
+        mm = re.search(r'\.(or_else|unwrap_or_else|then)\(\s*\|\|', m[start:])
         if not mm:
             return text, n
         k = start + mm.start()
@@ -422,7 +422,8 @@ def desugar_option_or_else(text):
         cl = match_close(m, op)
         args = text[op + 1:cl]
         cls = find_closures(mask(args))
-        if not cls or cls[0][0] != len(args) - len(args.lstrip()) or cls[0][3] < len(args.rstrip()) or 'self' not in args:
+        if not cls or cls[0][0] != len(args) - len(args.lstrip()) or cls[0][3] < len(args.rstrip()) \
+                or ('self' not in args and mm.group(1) != 'then'):
             start = op
             continue
         s1, p1, b1, e1 = cls[0]
@@ -430,7 +431,10 @@ def desugar_option_or_else(text):
         i = receiver_start(m, k)
         recv = text[i + 1:k].strip()
         some = 'Some(v_)' if mm.group(1) == 'or_else' else 'v_'
-        new = '(match %s { Some(v_) => %s, None => %s })' % (recv, some, body)
+        if mm.group(1) == 'then':      # bool::then
+            new = '(if %s { Some(%s) } else { None })' % (recv, body)
+        else:
+            new = '(match %s { Some(v_) => %s, None => %s })' % (recv, some, body)
         text = text[:i + 1] + new + text[cl + 1:]
         n += 1
         start = i + 1
